@@ -9,7 +9,7 @@ use serde_json::{json, Value};
 use std::io::Write;
 
 fn registry() -> Vec<&'static dyn Check> {
-    vec![&checks_l::C02]
+    vec![&checks_l::C02, &checks_l::C03, &checks_l::C05]
 }
 
 fn find(id: &str) -> &'static dyn Check {
@@ -48,6 +48,7 @@ fn main() {
             let tier = if arg_val(&args, "--tier").as_deref() == Some("thorough") { Tier::Thorough } else { Tier::Quick };
             let max_viol: u64 = if args.iter().any(|a| a == "--keep-going") { u64::MAX } else { arg_val(&args, "--max-violations").and_then(|v| v.parse().ok()).unwrap_or(1) };
             let mut n_viol = 0u64;
+            let mut finding_sample_done = false;
             let t0 = interpose::real_ns();
             let out = std::io::stdout();
             let mut i = 0u64;
@@ -55,7 +56,10 @@ fn main() {
                 let seed = from + i * stride;
                 let script = check.generate(seed, tier);
                 let mut o = run_script(check, script.clone(), false);
-                if i < samples && o.ok {
+                if o.ok && (i < samples || (!o.findings.is_empty() && !finding_sample_done)) {
+                    if !o.findings.is_empty() {
+                        finding_sample_done = true;
+                    }
                     o.script = Some(script);
                 }
                 let line = serde_json::to_string(&o).unwrap();
